@@ -1,6 +1,6 @@
 (* C04 — each operator application is emitted once, in the innermost enclosing scope.  Property theorems only. *)
 From Coq Require Import List String NArith Arith Bool.
-From Spox Require Import Base IR Show Build Sem Plan Validate BuildFacts SemFacts DfsFacts ScopeFacts EmitFacts.
+From Spox Require Import Base IR Show Build Sem Plan Validate BuildFacts SemFacts DfsFacts ScopeFacts EmitFacts ReachFacts DiscoverFacts CoverageFacts.
 Import ListNotations.
 
 (* The source nodes of all emitted nodes (all nested graphs) are duplicate-free and are exactly the non-argument nodes on which
@@ -106,3 +106,49 @@ Theorem C04_only_applications_an_output_depends_on_are_emitted_by_construction :
       In u (topo_of (with_main p (Some args) outputs) 0) /\ is_arg (with_main p (Some args) outputs) u = false.
 Proof. exact build_public_emits_only_reachable. Qed.
 Print Assumptions C04_only_applications_an_output_depends_on_are_emitted_by_construction.
+
+(* "... exactly once IF some requested output depends on it", by construction (no validator): COVERAGE.  Whatever the public build
+   returns, the source nodes of the emitted nodes (main graph and every nested body) are EXACTLY the non-argument members of the one
+   traversal from the requested outputs - nothing an output depends on is dropped, nothing else is emitted.  Premises (decidable,
+   evaluated on every generated program): the reflected object graph is acyclic and only operator / function nodes carry subgraph
+   attributes.  With C04_build_main_emits_at_most_once: exactly once. *)
+Theorem C04_emitted_iff_a_requested_output_depends_on_it_by_construction :
+  forall p r m inputs outputs,
+  build_public p r = inl m -> all_vars (r_inputs r) = Some inputs -> all_vars (r_outputs r) = Some outputs ->
+  cover_premises_b (with_main p None outputs) = true ->
+  exists args, (r_drop r = false -> args = map snd inputs) /\ (forall a, In a args -> In a (map snd inputs)) /\
+    forall u, In u (srcs_graph (mmain m)) <->
+      (In u (topo_of (with_main p (Some args) outputs) 0) /\ is_arg (with_main p (Some args) outputs) u = false).
+Proof. exact build_public_emits_exactly. Qed.
+Print Assumptions C04_emitted_iff_a_requested_output_depends_on_it_by_construction.
+
+(* what discovery establishes on every program on which it succeeds (acyclic object graph): no graph is listed twice, the root is
+   listed; every subgraph attribute met while traversing a listed graph D belongs to a listed graph that is owned by exactly the node
+   carrying it and was finished BEFORE D; every listed graph but the root was met through such an attribute; every listed graph is
+   reachable from the root's results. *)
+Theorem C04_discovery_facts :
+  forall p (rank : nref -> nat), (forall u v, In v (full_adj p u) -> rank v < rank u) ->
+  forall root d, discover (fuel_of p) p dstate0 root = inl d ->
+  NoDup (d_post d) /\ In root (d_post d) /\
+  (forall D, In D (d_post d) -> forall x k h, In x (trav p D) -> In (k, h) (subs_of p x) ->
+       lookup Nat.eqb h (d_own d) = Some x /\ before (d_post d) h D) /\
+  (forall h, In h (d_post d) -> h = root \/ exists D x k, In D (d_post d) /\ In x (trav p D) /\ In (k, h) (subs_of p x)) /\
+  (forall h, In h (d_post d) -> reach (full_adj p) (NIntro root) (NIntro h)).
+Proof. exact discover_facts. Qed.
+Print Assumptions C04_discovery_facts.
+
+(* the scope resolution assigns every node of every traversed graph to an ALREADY PROCESSED graph (the alternating-walk lca only
+   returns graphs on the two ancestor chains), for any fuel and any owner table *)
+Theorem C04_scope_resolution_stays_within_processed_graphs :
+  forall p own l done sc, K p done sc -> K p (done ++ l) (fold_left (update_scope_tree p own) l sc).
+Proof. exact fold_K. Qed.
+Print Assumptions C04_scope_resolution_stays_within_processed_graphs.
+
+(* every node a requested output depends on is owned by a graph that hangs on a chain of (graph, owner node) links below the main
+   graph - the chains compile follows *)
+Theorem C04_every_reachable_node_is_owned_on_a_chain_from_the_main_graph :
+  forall p (rank : nref -> nat), (forall u v, In v (full_adj p u) -> rank v < rank u) -> (forall u, rank u < fuel_of p) -> wf_kinds p ->
+  forall main d, discover (fuel_of p) p dstate0 main = inl d ->
+  forall u, In u (topo_of p main) -> exists h, Path p (own_of_def p d main) main h /\ In u (own_of_def p d main h).
+Proof. exact every_reachable_node_is_owned_on_a_chain. Qed.
+Print Assumptions C04_every_reachable_node_is_owned_on_a_chain_from_the_main_graph.
